@@ -10,6 +10,8 @@ REALS = ("ValueType is modelled by exact reals (type R): every 'equals its defin
          "the size and growth of IEEE rounding error is NOT decided by this check")
 
 UNITS = {
+    "ind_psar": dict(tpl="ind_psar.rs.tpl", doc="indicators::ParabolicSAR (+ HLC)"),
+    "ind_mfi": dict(tpl="ind_mfi.rs.tpl", doc="indicators::MoneyFlowIndex"),
     "ind_stoch_cmf": dict(tpl="ind_stoch_cmf.rs.tpl", doc="indicators::{ChaikinMoneyFlow, StochasticOscillator}"),
     "ind_aroon": dict(tpl="ind_aroon.rs.tpl", doc="indicators::Aroon"),
     "swma": dict(tpl="swma.rs.tpl", doc="methods::SWMA"),
@@ -109,9 +111,9 @@ KANI_GROUPS = {
         ]),
 }
 
-INDICATOR_UNITS = ["ind_macd", "ind_channels", "ind_rsi", "ind_more", "ind_aroon", "ind_stoch_cmf"]
+INDICATOR_UNITS = ["ind_macd", "ind_channels", "ind_rsi", "ind_more", "ind_aroon", "ind_stoch_cmf", "ind_psar", "ind_mfi"]
 IND_DEPS = ["indicator_base", "ohlcv", "window", "sma", "st_dev", "highest_lowest", "highest_lowest_index", "ema", "wma", "candle_methods"]
-COVERED_INDICATORS = "MACD, DonchianChannel, PriceChannelStrategy, BollingerBands, RelativeStrengthIndex, Envelopes, KeltnerChannel, Aroon, ChaikinMoneyFlow, StochasticOscillator"
+COVERED_INDICATORS = "MACD, DonchianChannel, PriceChannelStrategy, BollingerBands, RelativeStrengthIndex, Envelopes, KeltnerChannel, Aroon, ChaikinMoneyFlow, StochasticOscillator, ParabolicSAR, MoneyFlowIndex"
 
 
 PROPS = {
@@ -169,7 +171,7 @@ PROPS["C04"] = dict(
 
 METHOD_UNITS = ["sma", "simple_window", "wma", "vwma", "st_dev", "mean_abs_dev", "compose_ma", "ema", "derived_window",
                 "candle_methods", "highest_lowest", "highest_lowest_index", "lin_reg", "swma", "conv"]
-ALL_VERUS = ["window", "ohlcv"] + METHOD_UNITS + ["indicator_base", "combinators", "converters", "ind_macd", "ind_channels", "ind_rsi", "ind_more", "ind_aroon", "ind_stoch_cmf", "reversal", "indicator_over", "window_serde"]
+ALL_VERUS = ["window", "ohlcv"] + METHOD_UNITS + ["indicator_base", "combinators", "converters", "ind_macd", "ind_channels", "ind_rsi", "ind_more", "ind_aroon", "ind_stoch_cmf", "ind_psar", "ind_mfi", "reversal", "indicator_over", "window_serde"]
 
 PROPS["C08"] = dict(
     verus=ALL_VERUS,
@@ -281,9 +283,10 @@ PROPS["C12"] = dict(
            "LinearVolatility >= 0; Vidya's CMO factor in [0,1] and its guarded quotient well defined; TSI's guard implies a positive denominator; "
            "RSI in [0,1] for averaging kinds that cannot overshoot (with its debug assertion discharged); Bollinger upper >= middle >= lower; "
            "Donchian and PriceChannel contain the highs/lows they are built from; Aroon lines in (0,1]; Stochastic %K in [0,1] for an ordered candle and both "
-           "lines in [0,1] for averaging kinds that cannot overshoot; Keltner upper >= average >= lower while the true ranges fed are non-negative; Envelopes ordered for a non-negative average."),
+           "lines in [0,1] for averaging kinds that cannot overshoot; Keltner upper >= average >= lower while the true ranges fed are non-negative; Envelopes ordered for a non-negative average; "
+           "ParabolicSAR reports a SAR on the side of the price opposite to its trend and never lets the next SAR cross the last two candles; MoneyFlowIndex in [0,1] for non-negative volumes."),
     assumptions=[REALS + ": residue after a flat stretch and non-finite outputs are float behaviour and are NOT decided",
-                 "MFI, CMO, CMF's range, SMI/TSI-based indicators, ParabolicSAR, MeanAbsDev >= 0 are not covered by this check yet"],
+                 "CMO, CMF's range, SMI/TSI-based indicators, MeanAbsDev >= 0 are not covered by this check yet"],
 )
 
 PROPS["C17"] = dict(
